@@ -21,7 +21,16 @@
      (vc PARAMS (TX...) SIGTAB PQTAB HTAB OBSV validate maxGroup ((addr authAddr)...) feesOk (ETX...) OBSE)
         the SAME group through verify.TxnGroup (OBSV) and BlockEvaluator.TransactionGroup (OBSE);
         the oracle is evaluated on the COMPOSITION: accepted by both => every member is
-        authorised by the CURRENT authorizer of its sender in the ledger state *)
+        authorised by the CURRENT authorizer of its sender in the ledger state
+     histories over ONE shared VerifiedTransactionCache, one case per call (W = "the cache vouched
+     for the group before the call", R = "... after the call", both asked of the real cache):
+     (pg PARAMS ((TX...)...) (W...) SIGTAB PQTAB HTAB ok|err (R...))
+        block validation: GetUnverifiedTransactionGroups, then verify.PaysetGroups on the rest
+     (tc PARAMS (TX...) W SIGTAB PQTAB HTAB OBS R)            verify.TxnGroup with the cache
+     (pb PARAMS ((TX...)...) (W...) SIGTAB PQTAB HTAB (OBS...) (R...))
+        txnSigBatchProcessor.ProcessBatch (stream verifier), one OBS per job
+     oracle: a group the cache vouches for, and every group of an accepted payset, has only
+     members with exactly one category that are authorised -- on EVERY call, whatever came before *)
 From Coq Require Import String Ascii NArith ZArith List Bool.
 Import ListNotations.
 From Verif.lib Require Import Term.
@@ -241,8 +250,69 @@ Definition views_agree (l : list stxn) (g : list etx) : bool :=
   list_eqb beqb (map (fun s => g_grp (t_gtx s)) l) (map (fun t => g_grp (e_gtx t)) g) &&
   list_eqb beqb (map (fun s => g_body (t_gtx s)) l) (map (fun t => g_body (e_gtx t)) g).
 
+(* declarative: every member of the group has exactly one category and is authorised *)
+Definition group_authorised (sig_ok : bytes -> bytes -> bytes -> bool) (pq_ok : bytes -> bytes -> bytes -> bytes -> bool)
+           (H : bytes -> bytes) (g : list stxn) : bool :=
+  negb (length g =? 0)%nat && forallb (fun s => accept_ok_b sig_ok pq_ok H (authorizer s) s) g.
+
+Definition dec_group (t : term) : option (list stxn) :=
+  match t with TL l => map_opt dec_stxn l | _ => None end.
+Fixpoint zip3 {A B C} (a : list A) (b : list B) (c : list C) : list (A * B * C) :=
+  match a, b, c with
+  | x :: a', y :: b', z :: c' => (x, y, z) :: zip3 a' b' c'
+  | _, _, _ => []
+  end.
+Definition same_len3 {A B C} (a : list A) (b : list B) (c : list C) : bool :=
+  (length a =? length b)%nat && (length b =? length c)%nat.
+
 Definition check (t : term) : term :=
   match t with
+  | TL [TS "pg"; ps; TL gs; TL ws; TL st; TL pt; TL ht; TS res; TL rs] =>
+      match dec_params ps, map_opt dec_group gs, map_opt as_bool ws, map_opt dec_sigrow st, map_opt dec_pqrow pt,
+            map_opt dec_hrow ht, map_opt as_bool rs with
+      | Some p, Some gl, Some wl, Some st, Some pt, Some ht, Some rl =>
+          if negb (forallb (tables_complete st pt) gl && same_len3 gl wl rl) then v_parse else
+          let sig_ok := sig_of st in let pq_ok := pq_of pt in let H := h_of ht in
+          let rows := zip3 gl wl rl in
+          let unv := map (fun x => fst (fst x)) (filter (fun x => negb (snd (fst x))) rows) in
+          let mres := payset_ok sig_ok pq_ok H p unv in
+          let res_ok := String.eqb res "ok" in
+          let corr := Bool.eqb res_ok mres &&
+                      forallb (fun x => let '(g, w, r) := x in
+                                 (negb w || r) && (negb mres || r) &&
+                                 (negb (r && negb w) || gvalid sig_ok pq_ok H p g)) rows in
+          let spec := forallb (fun x => let '(g, w, r) := x in
+                                 negb (r || w || res_ok) || group_authorised sig_ok pq_ok H g) rows in
+          verdict spec corr (existsb (existsb has_any_sig) gl) (TL [TS (if mres then "ok" else "err")])
+      | _, _, _, _, _, _, _ => v_parse
+      end
+  | TL [TS "tc"; ps; g; w; TL st; TL pt; TL ht; obs; r] =>
+      match dec_params ps, dec_group g, as_bool w, map_opt dec_sigrow st, map_opt dec_pqrow pt, map_opt dec_hrow ht, as_bool r with
+      | Some p, Some g, Some w, Some st, Some pt, Some ht, Some r =>
+          if negb (tables_complete st pt g) then v_parse else
+          let sig_ok := sig_of st in let pq_ok := pq_of pt in let H := h_of ht in
+          let m := verify_group sig_ok pq_ok H p g in
+          let mok := match m with VOk => true | _ => false end in
+          verdict (negb (r || w || obs_ok obs) || group_authorised sig_ok pq_ok H g)
+                  (term_eqb obs (t_vres m) && Bool.eqb r (w || mok)) (existsb has_any_sig g) (t_vres m)
+      | _, _, _, _, _, _, _ => v_parse
+      end
+  | TL [TS "pb"; ps; TL gs; TL ws; TL st; TL pt; TL ht; TL os; TL rs] =>
+      match dec_params ps, map_opt dec_group gs, map_opt as_bool ws, map_opt dec_sigrow st, map_opt dec_pqrow pt,
+            map_opt dec_hrow ht, map_opt as_bool rs with
+      | Some p, Some gl, Some wl, Some st, Some pt, Some ht, Some rl =>
+          if negb (forallb (tables_complete st pt) gl && same_len3 gl wl rl && (length gl =? length os)%nat) then v_parse else
+          let sig_ok := sig_of st in let pq_ok := pq_of pt in let H := h_of ht in
+          let ms := map (fun g => verify_group sig_ok pq_ok H p g) gl in
+          let rows := zip3 (combine gl (combine ms os)) wl rl in
+          let corr := forallb (fun x => let '((g, (m, o)), w, r) := x in
+                                 term_eqb o (t_vres m) &&
+                                 Bool.eqb r (w || match m with VOk => true | _ => false end)) rows in
+          let spec := forallb (fun x => let '((g, (m, o)), w, r) := x in
+                                 negb (r || w || obs_ok o) || group_authorised sig_ok pq_ok H g) rows in
+          verdict spec corr (existsb (existsb has_any_sig) gl) (TL (map t_vres ms))
+      | _, _, _, _, _, _, _ => v_parse
+      end
   | TL [TS "vc"; ps; TL txs; TL st; TL pt; TL ht; obsv; v; mg; TL ast; fo; TL etxs; obse] =>
       match dec_params ps, map_opt dec_stxn txs, map_opt dec_sigrow st, map_opt dec_pqrow pt, map_opt dec_hrow ht with
       | Some p, Some l, Some st, Some pt, Some ht =>
